@@ -33,6 +33,7 @@ type deferInfo struct {
 	block *ssa.BasicBlock
 	call  *ssa.Defer
 	args  []Val
+	flag  string
 }
 
 type rangeState struct {
@@ -80,6 +81,10 @@ type FnTrans struct {
 	masks      map[ssa.Value]uint64
 	modComps   map[string]bool
 	modByComp  map[string][]modTarget
+	curInstr   int
+	unmodelled map[ssa.Value]bool
+	atOrd      map[string]int
+	atUsed     map[int]bool
 }
 
 func (tr *FnTrans) obName(class string, label string) string {
@@ -387,11 +392,20 @@ func (tr *FnTrans) mergeHeaps(conds []string, heaps []*Heap) *Heap {
 		names = append(names, c)
 	}
 	sort.Strings(names)
+	get := func(h *Heap, c string) string {
+		if strings.HasPrefix(c, "D$") { // defer flags start out false
+			if v, ok := h.m[c]; ok {
+				return v
+			}
+			return "false"
+		}
+		return tr.vc.hget(h, c)
+	}
 	for _, c := range names {
-		first := tr.vc.hget(heaps[0], c)
+		first := get(heaps[0], c)
 		same := true
 		for _, h := range heaps[1:] {
-			if tr.vc.hget(h, c) != first {
+			if get(h, c) != first {
 				same = false
 			}
 		}
@@ -399,9 +413,9 @@ func (tr *FnTrans) mergeHeaps(conds []string, heaps []*Heap) *Heap {
 			res.m[c] = first
 			continue
 		}
-		term := tr.vc.hget(heaps[len(heaps)-1], c)
+		term := get(heaps[len(heaps)-1], c)
 		for i := len(heaps) - 2; i >= 0; i-- {
-			term = sIte(conds[i], tr.vc.hget(heaps[i], c), term)
+			term = sIte(conds[i], get(heaps[i], c), term)
 		}
 		n := tr.vc.fresh(c+"@m", tr.vc.compSort[c])
 		tr.vc.fact(sEq(n, term), "")
@@ -421,7 +435,20 @@ func (tr *FnTrans) newEpoch() int {
 func (tr *FnTrans) havocAll() {
 	tr.vc.compDecl(compAlloc, sortInt)
 	oldAlloc := tr.vc.hget(tr.cur, compAlloc)
+	prev := tr.cur
 	tr.cur = newHeap(tr.newEpoch())
+	// function-private components survive: defer flags, non-escaping local
+	// structs, range iteration state
+	for c := range tr.vc.compSort {
+		switch {
+		case strings.HasPrefix(c, "D$"):
+			if v, ok := prev.m[c]; ok {
+				tr.cur.m[c] = v
+			}
+		case strings.HasPrefix(c, "L$"), strings.HasPrefix(c, "R$"):
+			tr.cur.m[c] = tr.vc.hget(prev, c)
+		}
+	}
 	na := tr.vc.hget(tr.cur, compAlloc)
 	tr.fact(sLe(oldAlloc, na))
 	tr.markAllWritten()
@@ -515,6 +542,8 @@ func (tr *FnTrans) run() {
 	tr.counters = map[string]int{}
 	tr.ranges = map[ssa.Value]*rangeState{}
 	tr.callOrd = map[string]int{}
+	tr.atOrd = map[string]int{}
+	tr.atUsed = map[int]bool{}
 	tr.selStates = map[ssa.Value][]Val{}
 	tr.analyze()
 	if tr.fc != nil {
@@ -691,12 +720,14 @@ func (tr *FnTrans) block(b *ssa.BasicBlock) {
 		}
 	}
 	snap := tr.cur.clone()
-	for _, in := range b.Instrs {
+	for k, in := range b.Instrs {
 		if _, ok := in.(*ssa.Phi); ok {
 			continue
 		}
+		tr.curInstr = k
 		tr.instr(in)
 	}
+	tr.curInstr = len(b.Instrs)
 	tr.outHeap[b.Index] = tr.cur
 	if tr.written[b.Index] == nil {
 		tr.written[b.Index] = map[string]bool{}
@@ -763,7 +794,7 @@ func (tr *FnTrans) loopHeader(li *loopInfo, phiEntry map[*ssa.Phi]Val) {
 			tr.havocAll()
 		} else {
 			for _, c := range tr.loopMods[b.Index] {
-				if c == compAlloc {
+				if c == compAlloc || strings.HasPrefix(c, "D$") {
 					continue
 				}
 				if _, ok := vc.compSort[c]; !ok {
@@ -903,15 +934,27 @@ func (tr *FnTrans) lookupLocal(name string, at *ssa.BasicBlock, heap *Heap) (Val
 		if _, ok := tr.pos[db.Index]; !ok {
 			continue
 		}
-		if !(db.Dominates(at)) || db == at {
+		if !(db.Dominates(at)) {
 			continue
+		}
+		if db == at {
+			// same block: only references before the current instruction
+			idx := -1
+			for k, in := range db.Instrs {
+				if in == ssa.Instruction(d) {
+					idx = k
+				}
+			}
+			if at != tr.curBlock || idx < 0 || idx >= tr.curInstr {
+				continue
+			}
 		}
 		if _, ok := tr.vals[d.X]; !ok {
 			if _, isC := d.X.(*ssa.Const); !isC {
 				continue
 			}
 		}
-		if tr.pos[db.Index] > bestPos || (tr.pos[db.Index] == bestPos) {
+		if tr.pos[db.Index] >= bestPos {
 			best = d
 			bestPos = tr.pos[db.Index]
 		}
@@ -983,8 +1026,41 @@ func (tr *FnTrans) setEdge(from, to *ssa.BasicBlock, cond string) {
 
 // ---------------------------------------------------------------- exit
 
+// atCall emits the `at call <n> <method> assert ...` obligations anchored at
+// the n-th call (in translation order) of a function or method with the given
+// simple name. Locals are resolved through the debug references.
+func (tr *FnTrans) atCall(simple string) {
+	if tr.fc == nil || tr.scan {
+		return
+	}
+	tr.atOrd[simple]++
+	ord := tr.atOrd[simple]
+	for k, ai := range tr.fc.At {
+		f := strings.Fields(ai.Anchor)
+		if len(f) != 3 || f[0] != "call" || f[2] != simple || f[1] != fmt.Sprint(ord) {
+			continue
+		}
+		tr.atUsed[k] = true
+		if ai.What != "assert" {
+			panic(vcErrorf("at %s: only assert is supported", ai.Anchor))
+		}
+		ec := tr.specCtx(tr.cur, tr.entryHeap, nil)
+		at := tr.curBlock
+		heap := tr.cur
+		ec.lookup = func(name string) (Val, bool) { return tr.lookupLocal(name, at, heap) }
+		tr.vc.oblig(fmt.Sprintf("%s#assert:%s", tr.name, ai.Label), "assert", sImp(tr.curReach, ec.evalBool(ai.E)), fmt.Sprintf("assertion before call %d of %s: %s", ord, simple, ai.Text))
+	}
+}
+
 func (tr *FnTrans) exit() {
 	vc := tr.vc
+	if tr.fc != nil && !tr.scan {
+		for k, ai := range tr.fc.At {
+			if !tr.atUsed[k] {
+				panic(vcErrorf("at-clause anchor %q does not match any program point", ai.Anchor))
+			}
+		}
+	}
 	if len(tr.returns) == 0 {
 		return // function never returns normally
 	}
@@ -1174,6 +1250,24 @@ func (tr *FnTrans) modTargets(ec *evalCtx, e Expr) []modTarget {
 		if x.Fn == "alloc" {
 			return nil
 		}
+		if x.Fn == "any" && len(x.Args) == 1 { // any(pkg.Type.field): that field of every object
+			path := strings.ReplaceAll(exprString(x.Args[0]), " ", "")
+			k := strings.LastIndex(path, ".")
+			if k < 0 {
+				panic(vcErrorf("modifies any(): expected Type.field"))
+			}
+			t := ec.resolveType(path[:k])
+			st := structOf(t)
+			if st == nil {
+				panic(vcErrorf("modifies any(): %s is not a struct", path[:k]))
+			}
+			i := fieldIndex(st, path[k+1:])
+			if i < 0 {
+				panic(vcErrorf("modifies any(): no field %s", path[k+1:]))
+			}
+			comp, _ := vc.fieldComp(t, i)
+			return []modTarget{{comp: comp}}
+		}
 		if x.Fn == "elems" && len(x.Args) == 1 { // contents of a map / all elements of a slice
 			v := ec.eval(x.Args[0])
 			if v.K == KSlice {
@@ -1286,7 +1380,7 @@ func (tr *FnTrans) frameCheck(fin *Heap, reach string) {
 	}
 	sort.Strings(comps)
 	for _, comp := range comps {
-		if comp == compAlloc || strings.HasPrefix(comp, "R$") || strings.HasPrefix(comp, "L$") {
+		if comp == compAlloc || strings.HasPrefix(comp, "R$") || strings.HasPrefix(comp, "L$") || strings.HasPrefix(comp, "D$") {
 			continue
 		}
 		ent := vc.hget(tr.entryHeap, comp)
